@@ -287,12 +287,14 @@ func (app *App) addPrefixToRoute(prefix string, route *Route) *Route {
 	route.Path = prefixedPath
 	route.path = RemoveEscapeChar(prettyPath)
 	route.routeParser = parseRoute(prettyPath, app.customConstraints...)
+	parsedRaw := parseRoute(prefixedPath, app.customConstraints...)
+	declaredConstraints(&route.routeParser, &parsedRaw)
 	if n := len(route.routeParser.segs); app.config.StrictRouting && n > 0 && !route.routeParser.segs[n-1].IsParam {
 		// Strict routing: the slash that ends the pattern is not optional (as in register)
 		route.routeParser.segs[n-1].HasOptionalSlash = false
 	}
 	// The prefix may carry parameters of its own: the names are those of the whole path
-	route.Params = parseRoute(prefixedPath, app.customConstraints...).params
+	route.Params = parsedRaw.params
 	route.root = route.path == "/"
 	route.star = route.path == "/*"
 
@@ -353,6 +355,7 @@ func (app *App) register(methods []string, pathRaw string, group *Group, handler
 
 	parsedRaw := parseRoute(pathRaw, app.customConstraints...)
 	parsedPretty := parseRoute(pathPretty, app.customConstraints...)
+	declaredConstraints(&parsedPretty, &parsedRaw)
 	if n := len(parsedPretty.segs); app.config.StrictRouting && n > 0 && !parsedPretty.segs[n-1].IsParam {
 		// Strict routing: the slash that ends the pattern is not optional
 		parsedPretty.segs[n-1].HasOptionalSlash = false
